@@ -81,6 +81,9 @@ class Key(object):
             not self._generator.contains_point(*self._public_pair)
         ):
             raise InvalidPublicPairError()
+        # contains_point works modulo p: coordinates must be field elements
+        if not all(0 <= _ < self._generator.p() for _ in self._public_pair):
+            raise InvalidPublicPairError()
 
     @classmethod
     def from_sec(class_: type[Key], sec: bytes) -> Key:
